@@ -94,10 +94,64 @@ def inner_flag_programs():
     """flags INSIDE a nested DAG that are indexed / unpacked parts of inner results (no flag on the nested call itself)"""
     yield "inner_indexed_flags", [sub("inner", [P("x")], ["ra", "rb", "rc"]), call("ident", [Vv("rb")], "s")], \
         ["tuple", [Vv("ra"), Vv("rb"), Vv("rc"), Vv("s")]], [INNER_IDXFLAG]
+    # the same inner DAG called twice: each copy is governed by ITS OWN inner flags (first call: falsy for x=0, second: truthy)
+    yield "inner_flags_two_calls", [sub("inner", [P("x")], ["ra", "rb", "rc"]), sub("inner", [P("y")], ["sa", "sb", "sc"]),
+                                    sub("inner", [C(0)], ["ta", "tb", "tc"])], \
+        ["tuple", [Vv("ra"), Vv("rb"), Vv("rc"), Vv("sa"), Vv("sb"), Vv("sc"), Vv("ta"), Vv("tb"), Vv("tc")]], [INNER_IDXFLAG]
     yield "inner_indexed_flags_two_levels", [sub("mid", [P("x")], "r")], ["atom", Vv("r")], [MID_IDXFLAG]
 
 
+STATEFUL_SRC = '''
+from tawazi import xn, dag
+import twzmc.harness as H
+import twzmc.ir as IRL
+
+class Switch:
+    """a constant whose truthiness is decided when it is LOOKED AT (feature switch)"""
+    def __init__(self):
+        self.on = True
+    def __bool__(self):
+        return self.on
+
+SWITCH = Switch()
+ITEMS = [1]
+
+@xn
+def inc(*a, **k):
+    return H.lib_call("inc", IRL.LIB["inc"], a, k)
+
+@dag
+def inner(a):
+    return inc(a)
+
+@dag
+def main(x):
+    r = inc(x, twz_active=SWITCH)
+    s = inc(x, twz_active=ITEMS)
+    t = inner(x, twz_active=SWITCH)
+    return r, s, t
+'''
+
+
+def stateful_case(acc, c):
+    """the flag value is looked at when the DAG RUNS: a constant that is truthy at description time and falsy at run time deactivates"""
+    from ..build import exec_source
+    acc.cases += 1
+    ns = exec_source(STATEFUL_SRC)
+    d = ns["main"]
+    for on, items, want in ((True, [1], (4, 4, 4)), (False, [1], (None, 4, None)), (True, [], (4, None, 4)), (False, [], (None, None, None)), (True, [0], (4, 4, 4))):
+        ns["SWITCH"].on = on
+        ns["ITEMS"][:] = items
+        res = H.run_controlled(lambda: d(3))
+        acc.evaluations += 1
+        acc.mark_nontrivial(("stateful", on, tuple(items)))
+        if res.outcome != "return" or res.value != want:
+            acc.violation(V("stateful_constant_flag", f"switch={on}, items={items}: DAG returned {res.value!r} ({res.outcome} {res.exc!r}), expected {want!r} (flags are evaluated at run time)",
+                            on=on, items=len(items)), dict(c), (), res.trace, STATEFUL_SRC)
+
+
 def cases(tier: str):
+    yield dict(flag="stateful_constant", carrier="special", prog=None, expect_build_error=None, special="stateful")
     for name, body, rspec, subs in inner_flag_programs():
         prog = {"name": "main", "params": [["x", NODEFAULT], ["y", 4]], "body": body, "ret": rspec, "subs": subs}
         yield dict(flag="inside_nested", carrier=name, prog=prog, expect_build_error=None)
@@ -114,6 +168,8 @@ INPUTS = [(0,), (3,), (-1,), (-2,), (0, 7), (3, 7)]
 
 
 def run_one(acc, c):
+    if c.get("special") == "stateful":
+        return stateful_case(acc, c)
     prog = c["prog"]
     case = {"prog": prog, "flag": c["flag"], "carrier": c["carrier"]}
     if c["expect_build_error"]:
